@@ -251,11 +251,46 @@ func consumedFacts(bp *boundsProver, v ssa.Value) []lin {
 				if consumedSummary(g, pi, x.Index) {
 					out = append(out, bp.lenOf(call.Call.Args[pi], 0).add(bp.linOf(x, 0), -1))
 				}
+				if nonNegSummary(g, x.Index) {
+					out = append(out, bp.linOf(x, 0))
+				}
 			}
 		}
 	}
 	walk(v, 0)
 	return out
+}
+
+// nonNegSummary: result k of g is ≥ 0 at every return (a count).
+func nonNegSummary(g *ssa.Function, k int) bool {
+	key := fmt.Sprintf("%s/nonneg/%d", g.String(), k)
+	if r, ok := consumedMemo[key]; ok {
+		return r
+	}
+	consumedMemo[key] = false
+	ok := true
+	nret := 0
+	allInstrs(g, func(in ssa.Instruction) {
+		r, isR := in.(*ssa.Return)
+		if !isR || !ok {
+			return
+		}
+		res := retResults(r)
+		if res == nil {
+			return
+		}
+		nret++
+		if k >= len(res) {
+			ok = false
+			return
+		}
+		bp := &boundsProver{fn: g}
+		if !bp.prove(bp.linOf(res[k], 0), bp.factsAt(r.Block()), 4) {
+			ok = false
+		}
+	})
+	consumedMemo[key] = ok && nret > 0
+	return consumedMemo[key]
 }
 
 var consumedMemo = map[string]bool{}
